@@ -235,11 +235,13 @@ fn rule_zero_to_const(
     memory_out: &mut AvailableValueMap<MemoryLocation>,
     memory_in: &AvailableValueMap<MemoryLocation>,
 ) {
+    // Only values that survive in the outs are rewritten: an entry of the ins
+    // that this node has overwritten must not be resurrected.
     for (reg, val) in available_in {
         match val {
             AvailableValue::OriginalRegisterWithScalar(r, i)
             | AvailableValue::RegisterWithScalar(r, i) => {
-                if r.is_const_zero() {
+                if r.is_const_zero() && available_out.get(reg) == Some(val) {
                     available_out.insert(*reg, AvailableValue::Constant(*i));
                 }
             }
@@ -250,7 +252,7 @@ fn rule_zero_to_const(
         match val {
             AvailableValue::OriginalRegisterWithScalar(r, i)
             | AvailableValue::RegisterWithScalar(r, i) => {
-                if r.is_const_zero() {
+                if r.is_const_zero() && memory_out.get(mem_loc) == Some(val) {
                     memory_out.insert(mem_loc.clone(), AvailableValue::Constant(*i));
                 }
             }
